@@ -139,7 +139,7 @@ def _single_input_lists(d, conds):
     return out
 
 
-def no_kept_state(ctx, idx, rule, names=None, why=""):
+def no_kept_state(ctx, idx, rule, names=None, why="", copies_suffice=False):
     """Before the array analyser runs: no execute body of the named commands (all data commands when None) reads or writes
     module-level state that some function mutates, nor goes through a cached helper.  A result kept between executions and looked
     up by a key (result names, a path) belongs to whatever ran first in the process under that key."""
@@ -156,6 +156,9 @@ def no_kept_state(ctx, idx, rule, names=None, why=""):
         memo = K.memoised_helpers(idx, fi)
         if su and K.state_is_content_checked(idx, fi, su):
             continue  # (C02.b answers "cannot decide" for a content-validated cache)
+        if copies_suffice and (su or memo) and K.kept_values_are_copied(idx, fi, su, memo):
+            ctx.hold(rule, con, d.module.rel, fi.node.lineno, "what is kept between executions is handed out as a copy: no result shares storage with it")
+            continue
         if su:
             f_, n_, (m_, nm_) = su[0]
             ctx.violate(rule, con, d.module.rel, n_.lineno, "%s keeps `%s.%s` between executions (module-level state that functions mutate): what it returns for one set of inputs depends on what ran earlier in the process under the same key%s" % (d.cls.name, m_, nm_, why))
